@@ -267,7 +267,13 @@ def run (g : GOracle) (j : Json) : Json :=
             | none => pure ()
       | _ => pure ()
       return note
-    let specGeneric := io != "panic" && io != "crash" && implWellTyped obs && c10.1 && c14.1 && bindOk && parseNote == ""
+    -- C04/C02 "evaluated exactly once": in the straight-line programs of the `index-once` family every
+    -- written `pr(…)` is one evaluation (the probe records each)
+    let onceOk : Bool :=
+      if J.str (J.get j "gen") == "index-once" && (io == "ok" || io == "err") then
+        ((J.arr (J.get obs "trace")).toList.filter fun ev => J.str ((J.arr ev)[0]?.getD Json.null) == "pr").length ≤ J.nat (J.get j "once")
+      else true
+    let specGeneric := io != "panic" && io != "crash" && implWellTyped obs && c10.1 && c14.1 && bindOk && parseNote == "" && onceOk
     match checkAll g l with
     | .error (.inl q) => J.obj [("id", J.get j "id"), ("agree", true), ("spec", specGeneric), ("need", J.toHex q), ("note", "")]
     | .error (.inr msg) => J.obj [("id", J.get j "id"), ("agree", false), ("spec", specGeneric), ("note", msg)]
@@ -295,6 +301,6 @@ def run (g : GOracle) (j : Json) : Json :=
         return (d0, n)
       let agree := d == ""
       J.obj [("id", J.get j "id"), ("agree", agree), ("spec", specGeneric && (agree || !strict)),
-             ("note", if parseNote != "" then parseNote ++ " | " ++ d else if !bindOk then s!"use() call sites bound to {haveB}, expected {wantB} | " ++ d else if !c10.1 then c10.2 ++ " | " ++ d else if !c14.1 then c14.2 ++ " | " ++ d else d), ("orders", tried), ("moutcome", m0.outcome), ("semok", semCheck g l 0)]
+             ("note", if !onceOk then "a subscript written once was evaluated more than once (probe events: " ++ (J.get obs "trace").compress ++ ") | " ++ d else if parseNote != "" then parseNote ++ " | " ++ d else if !bindOk then s!"use() call sites bound to {haveB}, expected {wantB} | " ++ d else if !c10.1 then c10.2 ++ " | " ++ d else if !c14.1 then c14.2 ++ " | " ++ d else d), ("orders", tried), ("moutcome", m0.outcome), ("semok", semCheck g l 0)]
 
 end DrvRun
